@@ -21,6 +21,7 @@ RULE = (
     "(quiescent, nothing parked, call unfinished); result equals the unlimited run's result. Non-trivial: >= k+1 bodies "
     "could run concurrently (unlimited peak > k); distinct = (program shape, k, policy, form)."
     ' Asynchronous auto-answering interrupt handlers are bodies too; two burst schedules per limit release a second body 1-7 loop passes after the first without waiting for quiescence.'
+    ' Directed: a nested chain next to 2-4 siblings queued on the limiter, k = 1..3, 12 (quick) / 60 (thorough) burst schedules each: a release, a woken waiter and a new arrival in one loop turn.'
 )
 ASSUMPTIONS = [
     "the bound is on function-node bodies and asynchronous interrupt-handler bodies; gate functions and synchronous handlers are instantaneous decisions that cannot overlap anything",
